@@ -176,9 +176,21 @@ func (g *Exec) Expr(k vkind, d int) *ir.Node {
 			return call(ir.N(ir.Member, []string{"toUpperCase", "trim", "toLowerCase"}[r.Intn(3, "strm")], g.Expr(kStr, d-1)))
 		}
 	case kBool:
-		switch r.Pick("boolexpr", 6, 12, 5, 6, 4) {
+		switch r.Pick("boolexpr", 6, 12, 5, 6, 4, 2) {
 		case 0:
 			return g.atom(kBool)
+		case 5:
+			// operator sequences that white-space removal could fuse into another
+			// token: `<` `!` `--` (the HTML-like comment opener of Annex B.1.3)
+			// and `--` `>`
+			if v, ok := g.pickVar(kNum, true); ok {
+				g.feat("lt-not-decrement")
+				if r.Bool("gtform") {
+					return bin(">", ir.N(ir.Postfix, "--", idn(v.name)), g.Expr(kNum, d-1))
+				}
+				return bin("<", g.Expr(kNum, d-1), ir.N(ir.Unary, "!", ir.N(ir.Unary, "--", idn(v.name))))
+			}
+			return bin("<", g.atom(kNum), ir.N(ir.Unary, "!", g.atom(kNum)))
 		case 1:
 			op := []string{"<", ">", "<=", ">=", "==", "!="}[r.Intn(6, "cmp")]
 			kk := []vkind{kNum, kNum, kStr}[r.Intn(3, "cmpkind")]
